@@ -9,7 +9,7 @@ import walk_gen
 
 META = {
     'theorem_files': ['Props/C09.v'],
-    'theorems': ['C09_no_loss_no_reorder_partial', 'C09_unrestricted_is_false'],
+    'theorems': ['C09_no_loss_no_reorder_partial', 'C09_unrestricted_is_false', 'C09_allocation_order', 'C09_no_loss_no_reorder', 'C09_shipped_no_loss_no_reorder', 'C09_isa_loop_needs_cross_map_condition'],
     'trusted_base': [
         'Coq 8.16.1 kernel; no native_compute',
         'Model/Context.v, CtxReader.v (+ Reader, Walker, MapTree): hand transcription of x12context.py — tied by this run '
